@@ -277,17 +277,12 @@ def handle : List String → Option String
     | h :: es =>
       let b ← parseLine h
       let reps ← parseReps es
-      let rep := fun (start : Pt Float) (c : Cmd Float) =>
-        let k := keyOf start c
-        -- exact key first; otherwise the closest of the entries within tolerance
-        match reps.find? fun kv => kv.1 == k with
-        | some kv => some kv.2
-        | none =>
-          ((reps.filter fun kv => keyClose kv.1 k).foldl (fun (best : Option (Float × RPath Float)) kv =>
-            let dist := keyDist kv.1 k
-            match best with
-            | some (b, _) => if dist < b then some (dist, kv.2) else best
-            | none => some (dist, kv.2)) none).map (·.2)
+      -- the j-th recorded replacement, provided its key (pen position and record) agrees within the
+      -- tolerance of `~` lines; otherwise the record stays
+      let rep := fun (j : Nat) (start : Pt Float) (c : Cmd Float) =>
+        match reps[j]? with
+        | some kv => if keyClose kv.1 (keyOf start c) then some kv.2 else none
+        | none => none
       pure (showData (encode floatCodes (replace floatGeo rep (b.eval floatGeo))))
     | [] => none
   | "W" :: toks => do
